@@ -165,6 +165,30 @@ def check(run: Run) -> None:
         if not idx:
             run.finding("C15.d", "write_map_error:key", "the error must be written under the failing key (errors[key])", loc=MAP)
 
+    with run.obligation("C15.g", "K2", "a capture handler only reports: it performs no lifecycle or scheduling operation on the failed node, the "
+                        "wrapped sub-graph or the failing key's child (they keep running in later cycles)"):
+        LIFECYCLE = re.compile(r"(stop|start|dispose|destroy\w*|erase|remove\w*|reset|clear\w*|unbind\w*|schedule\w*|un_?schedule\w*|"
+                               r"invalidate\w*|mark_invalid|release\w*)")
+        n = 0
+        for rel, name in ((NODE, "evaluate_impl"), (TRY, "try_except_evaluate_impl"), (MAP, "map_evaluate_impl")):
+            fa = R.fn(run, rel, name)
+            fl = R.flow(run, fa)
+            hs = [nd for nd in fl.cfg.nodes if nd.kind == "call" and "fallback-handler" in nd.ctx.split("/")]
+            run.sites(len(hs), 1, f"{name} handler calls")
+            for nd in hs:
+                n += 1
+                run.count(1, f"C15.g.{name}")
+                nm = nd.name
+                if LIFECYCLE.fullmatch(nm):
+                    run.finding("C15.g", f"{name}:handler:{nm}", f"the capture handler of {name} calls {nd.callee}(...): a captured failure must leave "
+                                f"the failed node / child graph running", loc=fl.cfg.describe(nd.id))
+        run.sites(n, 5, "handler calls")
+
+    with run.obligation("C15.h", "K2", "after a captured failure inside a wrapped sub-graph the next cycle is a fresh scan of the sub-graph "
+                        "(the failing node and the nodes before it are evaluated normally again; shared with C01.d2)"):
+        from . import c01
+        c01.failed_cycle_not_resumed(run, "C15.h")
+
     with run.obligation("C15.e", "K4", "captures_errors is set only by with_error_capture / map_node_with_error_capture"):
         ws = [w for w in R.field_writers(t, "captures_errors") if w[3] == "store"]
         run.sites(len(ws), 2, "captures_errors stores")
@@ -205,6 +229,8 @@ def check(run: Run) -> None:
 
 
 VARIANTS = [
+    {"id": "h-revert-fix-failed-cycle-resumed", "expect": "C15.h", "edits": [{"file": "src/hgraph/runtime/graph.cpp", "find": "      !state.evaluation_failed && state.evaluation_cursor != 0 &&\n      state.evaluation_cursor != invalid_cursor;", "replace": "      state.evaluation_cursor != 0 && state.evaluation_cursor != invalid_cursor;"}]},
+    {"id": "g-map-handler-stops-child", "expect": "C15.g", "edits": [{"file": MAP, "find": "                                                                         evaluation_time, error);\n                                                     })", "replace": "                                                                         evaluation_time, error);\n                                                         child.stop(evaluation_time);\n                                                     })"}]},
     {"id": "a-capture-without-optin", "expect": "C15.a", "edits": [{"file": NODE, "find": "                        capture = schema != nullptr && schema->captures_errors;", "replace": "                        capture = schema != nullptr;"}]},
     {"id": "a-handled-returns-early", "expect": "C15.a", "edits": [{"file": NODE, "find": "                        static_cast<void>(fallback_on_exception(false,", "replace": "                        if (!fallback_on_exception(false,"}, {"file": NODE, "find": "                                                                   write_node_error(runtime, view, evaluation_time, error);\n                                                               }));", "replace": "                                                                   write_node_error(runtime, view, evaluation_time, error);\n                                                               })) { return true; }"}]},
     {"id": "b-error-next-cycle", "expect": "C15.b", "edits": [{"file": NODE, "find": "            auto  mutation    = output.begin_mutation(evaluation_time);\n            (void)mutation.move_value_from(std::move(error_value));\n        }\n\n        [[nodiscard]] const NodeCallbacks &callbacks", "replace": "            auto  mutation    = output.begin_mutation(evaluation_time + MIN_TD);\n            (void)mutation.move_value_from(std::move(error_value));\n        }\n\n        [[nodiscard]] const NodeCallbacks &callbacks"}]},
